@@ -409,20 +409,39 @@ def rule_statics(fx, rep, search, cone):
             b = fx.bodies[where[0]] if where else init
             rep.violation("C12-STATICS", f"C12-STATICS/{s}", f"`static mut {s}` is written by {sorted(norm(x) for x in w)}; writers outside the cone of init(): {[norm(x) for x in where]}",
                           {"fn": b.name, "file": b.file, "line": b.line})
-    # main: init() before run()
-    main = [b for b in fx.fn_bodies() if norm(b.name) == "main"]
+    # main: every table writer runs before run() - it lies in the cone of a call of main that dominates the call of run()
     n += 1
-    good = len(main) == 1
+    su = startup_cone(fx)
+    good = su is not None
+    late = []
     if good:
-        m = main[0]
-        ic = [bb for bb, t in m.calls() if fx.body(callee_name(t) or "") is not None and fx.body(callee_name(t)).name == init.name]
-        rc = [bb for bb, t in m.calls() if norm(callee_name(t) or "") == "run"]
-        good = len(ic) == 1 and len(rc) >= 1 and all(m.block_dominates(ic[0], r) and ic[0] != r for r in rc)
+        late = sorted(norm(x) for s_ in muts for x in writers.get(s_, set()) if x not in su)
+        good = not late
     rep.obligation(good)
     if not good:
         ok = False
-        rep.violation("C12-STATICS", "C12-STATICS/main-order", "main does not call init() exactly once before run()", {"fn": "main", "file": "src/main.rs"})
+        rep.violation("C12-STATICS", "C12-STATICS/main-order", "main does not run every table initialiser before run()" + (f": {late[:4]} are not reached from a call that precedes run()" if late else " (no single main / run() call found)"), {"fn": "main", "file": "src/main.rs"})
     rep.rule("C12-STATICS", n, 8, ok, "static mut tables written only during init, before run")
+
+
+def startup_cone(fx):
+    """Bodies reachable from the calls of `main` that dominate its call of run(): what has certainly been executed (as far as
+    the call graph can tell) before the first command is read. None if main / run() cannot be identified."""
+    main = [b for b in fx.fn_bodies() if norm(b.name) == "main"]
+    if len(main) != 1:
+        return None
+    m = main[0]
+    rc = [bb for bb, t in m.calls() if norm(callee_name(t) or "") == "run"]
+    if not rc:
+        return None
+    roots = []
+    for bb, t in m.calls():
+        cb = fx.body(callee_name(t) or "")
+        if cb is None or bb in rc:
+            continue
+        if all(m.block_dominates(bb, r) for r in rc):
+            roots.append(cb.name)
+    return fx.cone(roots)
 
 
 def rule_seed(fx, rep):
